@@ -1,0 +1,47 @@
+//go:build verif
+
+package parser
+
+// Read-only accessors for unexported token fields, used by the /verif
+// correspondence harnesses (properties C06, C20) to compare complete tokens.
+
+// VerifFlag returns the raw flag bitmask of a token (0 for tokens without one).
+func VerifFlag(t Token) uint8 {
+	switch t := t.(type) {
+	case Comment:
+		return uint8(t.flag)
+	case Whitespace:
+		return uint8(t.flag)
+	case Ident:
+		return uint8(t.flag)
+	case AtKeyword:
+		return uint8(t.flag)
+	case Hash:
+		return uint8(t.flag)
+	case String:
+		return uint8(t.flag)
+	case URL:
+		return uint8(t.flag)
+	case Literal:
+		return uint8(t.flag)
+	case Number:
+		return uint8(t.flag)
+	case Percentage:
+		return uint8(t.flag)
+	case Dimension:
+		return uint8(t.flag)
+	}
+	return 0
+}
+
+// VerifHashIsIdentifier reports the "id" type flag of a hash token.
+func VerifHashIsIdentifier(t Hash) bool { return t.isIdentifier() }
+
+// VerifStringIsError reports whether the string token was ended by EOF.
+func VerifStringIsError(t String) bool { return t.isError() }
+
+// VerifURLIsError reports whether the url token was ended by EOF.
+func VerifURLIsError(t URL) bool { return t.flag&isErrorInURL != 0 }
+
+// VerifErrorKind returns the kind byte of a parse error.
+func VerifErrorKind(t ParseError) byte { return t.kind }
